@@ -128,7 +128,17 @@ let rec sexp_of_rv = function
   | RObj kvs ->
     S.L (S.A "o" :: List.map (fun (k, v) -> S.L [S.of_int (int_of_nat k); sexp_of_rv v])
            (List.sort (fun (a, _) (b, _) -> compare (int_of_nat a) (int_of_nat b)) kvs))
-  | RLeak _ -> S.L [S.A "leak"]
+  | RLeak g -> sexp_of_leak g
+
+(* a Go value handed back unconverted (depth budget exhausted), as the harness sees it in "data":
+   plain Go ints, strings, booleans and []interface{} are recognisable, everything else is opaque *)
+and sexp_of_leak = function
+  | GNil -> S.A "null"
+  | GInt x -> S.L [S.A "goint"; S.of_int (int_of_z x)]
+  | GStr x -> S.L [S.A "s"; S.of_int (int_of_z x)]
+  | GBool b -> S.L [S.A "b"; S.of_int (if b then 1 else 0)]
+  | GList l -> S.L (S.A "l" :: List.map sexp_of_leak l)
+  | _ -> S.L [S.A "leak"]
 
 let sexp_of_seg = function
   | PKey k -> S.L [S.A "k"; S.of_int (int_of_nat k)]
@@ -162,6 +172,7 @@ type parsed = {
   schema : (nat * tdef) list; graph : (nat * node) list; any : bool; doc : doc;
   roots : (int * int); calls : (nat option * (nat * value) list) list; strat_r : int -> bool;
   defect : (string * int * int) option;
+  max_depth : nat;   (* ggql.MaxResolveDepth of the run *)
 }
 
 let find_section name l =
@@ -195,9 +206,11 @@ let parse (input : S.t) : parsed =
   let defect = (match List.find_opt (function S.L (S.A "defect" :: _) -> true | _ -> false) secs with
       | Some (S.L [_; S.A k; id; x]) -> Some (k, S.int id, S.int x)
       | _ -> None) in
-  { schema; graph; any; doc = { d_ops = ops; d_frags = frags }; roots; calls; strat_r = strat_of_node; defect }
+  let max_depth = (match List.find_opt (function S.L [S.A "maxdepth"; _] -> true | _ -> false) secs with
+      | Some (S.L [_; n]) -> nat_of_int (S.int n)
+      | _ -> nat_of_int 100) in
+  { schema; graph; any; doc = { d_ops = ops; d_frags = frags }; roots; calls; strat_r = strat_of_node; defect; max_depth }
 
-let max_depth = nat_of_int 100
 let fuel = nat_of_int 100000
 
 (* every Field node of the document: (id, name, args) *)
@@ -221,7 +234,7 @@ let run_model (p : parsed) : S.t =
           let n = (match o.op_kind with OpQuery -> fst p.roots | _ -> snd p.roots) in
           if n < 0 then GNil else if p.strat_r n then GNodeR (nat_of_int n) else GNodeA (nat_of_int n)
         | None -> GNil in
-      match Model.exec_op p.schema p.graph p.any max_depth fuel p.doc name vars rootobj !st with
+      match Model.exec_op p.schema p.graph p.any p.max_depth fuel p.doc name vars rootobj !st with
       | OutOfFuel -> S.L [S.A "diverge"]
       | Done (r, st') -> st := st'; sexp_of_resp r) p.calls in
   S.L (outs @ [S.L [S.A "printed"; S.A (if printed_changed p !st then "changed" else "same")]])
@@ -247,7 +260,7 @@ let run_spec (p : parsed) : (S.t * bool) list =
           let n = (match o.op_kind with OpQuery -> fst p.roots | _ -> snd p.roots) in
           if n < 0 then GNil else if p.strat_r n then GNodeR (nat_of_int n) else GNodeA (nat_of_int n)
         | None -> GNil in
-      match Model.sem_op p.schema p.graph p.any max_depth fuel p.doc name vars rootobj with
+      match Model.sem_op p.schema p.graph p.any p.max_depth fuel p.doc name vars rootobj with
       | OutOfFuel -> (S.L [S.A "diverge"], true)
       | Done r ->
         let nodup = (match r.r_data with Some d -> Model.nodup_keys d | None -> true) in
@@ -271,7 +284,7 @@ let reached (p : parsed) (id : int) (name, vars) : bool =
       let n = (match o.op_kind with OpQuery -> fst p.roots | _ -> snd p.roots) in
       if n < 0 then GNil else if p.strat_r n then GNodeR (nat_of_int n) else GNodeA (nat_of_int n)
     | None -> GNil in
-  match Model.sem_op p.schema p.graph p.any max_depth fuel doc name vars rootobj with
+  match Model.sem_op p.schema p.graph p.any p.max_depth fuel doc name vars rootobj with
   | Done r -> List.exists (fun e -> e.e_kind = ENotField && e.e_loc = LNode (nat_of_int id)) r.r_errs
   | OutOfFuel -> false
 
